@@ -17,6 +17,9 @@ def dispatch(prop):
     if prop in ("C19",):
         import contexts_check
         return contexts_check.main
+    if prop in ("C16", "C15"):
+        import sampleset_check
+        return sampleset_check.main
     raise SystemExit(f"unknown property {prop}")
 
 
